@@ -277,10 +277,17 @@ package otto
 //@   inline
 
 // ES5 11.8.5 abstract relational comparison on numeric operands, including the
-// undefined outcome when either is NaN.
+// undefined outcome when either is NaN; ToPrimitive is applied to the left operand first
+// exactly when LeftFirst is true (the order is observable through valueOf/toString).
 //@ func calculateLessThan
 //@   props C05
 //@   requires jsValue(left) && jsValue(right)
+//@   calls toNumberPrimitive(left) as pl
+//@   calls toNumberPrimitive(right) as pr
+//@   at_call toNumberPrimitive : left != right && !leftFirst && arg0 == left ==> called(pr)
+//@   at_call toNumberPrimitive : left != right && !leftFirst && arg0 == right ==> !called(pl)
+//@   at_call toNumberPrimitive : left != right && leftFirst && arg0 == right ==> called(pl)
+//@   at_call toNumberPrimitive : left != right && leftFirst && arg0 == left ==> !called(pr)
 //@   ensures isGoNumber(left) && isGoNumber(right) && (isNaN(numOf(left)) || isNaN(numOf(right))) ==> result == lessThanUndefined
 //@   ensures isGoNumber(left) && isGoNumber(right) && !(isNaN(numOf(left)) || isNaN(numOf(right))) ==> (result == lessThanTrue <==> numOf(left) < numOf(right)) && (result == lessThanFalse <==> !(numOf(left) < numOf(right)))
 //@   ensures result == lessThanTrue || result == lessThanFalse || result == lessThanUndefined
@@ -1312,11 +1319,13 @@ package otto
 // huge lengths).
 //@ func builtinStringSlice
 //@   props C09
+//@   calls checkObjectCoercible(call.runtime, call.This)
 //@   safety C02 C09
 //@   requires wfCall(call) && argsOK(call.ArgumentList)
 //@   stable call.ArgumentList
 //@ func builtinStringSubstring
 //@   props C09
+//@   calls checkObjectCoercible(call.runtime, call.This)
 //@   safety C02 C09
 //@   requires wfCall(call) && argsOK(call.ArgumentList)
 //@   stable call.ArgumentList
@@ -1348,6 +1357,7 @@ package otto
 //@   requires str != nil
 //@ func builtinStringCharAt
 //@   props C09
+//@   calls checkObjectCoercible(call.runtime, call.This)
 //@   safety C02 C09
 //@   requires wfCall(call) && argsOK(call.ArgumentList) && call.runtime != nil
 //@   stable call.ArgumentList
@@ -1355,6 +1365,7 @@ package otto
 //@   at_call stringAt : argOf(call, 0).kind == valueUndefined ==> arg1 == 0
 //@ func builtinStringCharCodeAt
 //@   props C09
+//@   calls checkObjectCoercible(call.runtime, call.This)
 //@   safety C02 C09
 //@   requires wfCall(call) && argsOK(call.ArgumentList) && call.runtime != nil
 //@   stable call.ArgumentList
@@ -1366,12 +1377,14 @@ package otto
 // the end"; the slice taken from the subject is always within it.
 //@ func builtinStringLastIndexOf
 //@   props C09
+//@   calls checkObjectCoercible(call.runtime, call.This)
 //@   safety C02 C09
 //@   requires wfCall(call) && argsOK(call.ArgumentList) && call.runtime != nil
 //@   requires len(call.ArgumentList) >= 2 ==> jsValue(call.ArgumentList[1])
 //@   stable call.ArgumentList
 //@ func builtinStringIndexOf
 //@   props C09
+//@   calls checkObjectCoercible(call.runtime, call.This)
 //@   safety C02 C09
 //@   requires wfCall(call) && argsOK(call.ArgumentList) && call.runtime != nil
 //@   stable call.ArgumentList
@@ -1765,6 +1778,7 @@ package otto
 //@   pure_if v.kind != valueObject
 //@   throws v.kind == valueObject
 //@   ensures isGoNumber(v) ==> (result <==> isNaN(numOf(v)))
+//@   ensures v.kind == valueUndefined ==> result
 
 // Growing a bridged Go slice through its length keeps the existing elements: they are
 // copied FROM the old slice into the new one.
@@ -1807,6 +1821,7 @@ package otto
 //@   pure_calls toIntegerFloat, (Value).IsNaN, (Value).float64, (Value).string
 //@   throws intArgOutside(call, 0.0, 20.0)
 //@   ensures !intArgOutside(call, 0.0, 20.0)
+//@   at_call strconv.FormatFloat : fabs(arg0) < 1000000000000000000000.0 && arg1 == 'f'
 //@   ensures intArgInside(call, 0.0, 20.0) && isNaN(numOf(call.This)) ==> result.kind == valueString && is(result.value, string) && result.value.(string) == "NaN"
 //@ func builtinNumberToExponential
 //@   props C06
@@ -1893,6 +1908,7 @@ package otto
 // elements - neither substrings nor captures - when a limit is given.
 //@ func builtinStringSplit
 //@   props C10 C09
+//@   calls checkObjectCoercible(call.runtime, call.This)
 //@   nosafety
 //@   requires wfCall(call) && argsOK(call.ArgumentList) && call.runtime != nil
 //@   stable call.ArgumentList
@@ -2066,12 +2082,14 @@ package otto
 //@ func builtinObjectFreeze
 //@   props C07
 //@   nosafety
+//@   at_call (*object).enumerate : arg1
 //@   requires wfCall(call) && argsOK(call.ArgumentList) && call.runtime != nil
 //@   ensures is(result.value, *object) && result.value.(*object) != nil && !result.value.(*object).extensible
 //@   ensures result == old(argOf(call, 0))
 //@ func builtinObjectSeal
 //@   props C07
 //@   nosafety
+//@   at_call (*object).enumerate : arg1
 //@   requires wfCall(call) && argsOK(call.ArgumentList) && call.runtime != nil
 //@   ensures is(result.value, *object) && result.value.(*object) != nil && !result.value.(*object).extensible
 //@   ensures result == old(argOf(call, 0))
@@ -2255,6 +2273,7 @@ package otto
 // left unchanged - neither the exec protocol nor any [[Put]] is involved.
 //@ func builtinStringSearch
 //@   props C10 C09
+//@   calls checkObjectCoercible(call.runtime, call.This)
 //@   nosafety
 //@   requires wfCall(call) && argsOK(call.ArgumentList) && call.runtime != nil
 //@   stable call.ArgumentList
@@ -2284,3 +2303,66 @@ package otto
 //@   props C11
 //@   nosafety
 //@   at_call (*object).defineProperty : arg2.kind != valueUndefined
+
+// 15.5.4: every String.prototype method other than toString and valueOf starts with
+// CheckObjectCoercible(this): null and undefined receivers are a TypeError.
+//@ func builtinStringConcat
+//@   props C09
+//@   nosafety
+//@   calls checkObjectCoercible(call.runtime, call.This)
+//@ func builtinStringMatch
+//@   props C09
+//@   nosafety
+//@   calls checkObjectCoercible(call.runtime, call.This)
+//@ func builtinStringReplace
+//@   props C09
+//@   nosafety
+//@   calls checkObjectCoercible(call.runtime, call.This)
+//@ func builtinStringStartsWith
+//@   props C09
+//@   nosafety
+//@   calls checkObjectCoercible(call.runtime, call.This)
+//@ func builtinStringToLowerCase
+//@   props C09
+//@   nosafety
+//@   calls checkObjectCoercible(call.runtime, call.This)
+//@ func builtinStringToUpperCase
+//@   props C09
+//@   nosafety
+//@   calls checkObjectCoercible(call.runtime, call.This)
+//@ func builtinStringTrim
+//@   props C09
+//@   nosafety
+//@   calls checkObjectCoercible(call.runtime, call.This)
+//@ func builtinStringTrimLeft
+//@   props C09
+//@   nosafety
+//@   calls checkObjectCoercible(call.runtime, call.This)
+//@ func builtinStringTrimRight
+//@   props C09
+//@   nosafety
+//@   calls checkObjectCoercible(call.runtime, call.This)
+//@ func builtinStringLocaleCompare
+//@   props C09
+//@   nosafety
+//@   calls checkObjectCoercible(call.runtime, call.This)
+
+// Function instances (13.2 step 18, 15.3.5.2): prototype is writable, not enumerable, not
+// configurable; its constructor back-link is writable, not enumerable, configurable.
+//@ func (*runtime).newNodeFunction
+//@   props C14 C07
+//@   nosafety
+//@   at_call (*object).defineProperty : arg1 == "prototype" ==> arg3 == 0o100
+//@   at_call (*object).defineProperty : arg1 == "constructor" ==> arg3 == 0o101
+
+// Object.isSealed / isFrozen / seal / freeze look at EVERY own property, enumerable or not.
+//@ func builtinObjectIsSealed
+//@   props C07
+//@   nosafety
+//@   requires wfCall(call) && argsOK(call.ArgumentList)
+//@   at_call (*object).enumerate : arg1
+//@ func builtinObjectIsFrozen
+//@   props C07
+//@   nosafety
+//@   requires wfCall(call) && argsOK(call.ArgumentList)
+//@   at_call (*object).enumerate : arg1
